@@ -227,6 +227,197 @@ fn family_rank(r: &mut StdRng, scn: usize, n_req: usize, out: &mut Vec<Value>) -
   Ok(n)
 }
 
+fn emit_scenario(out: &mut Vec<Value>, scn: usize, fam: &str, storage: &str, b: &Built, dict: &Dict, corpus: Value, searches: Vec<Value>) -> usize {
+  out.push(json!({"ev": "reset", "scn": scn, "fam": fam, "storage": storage, "schema": b.schema_json["text_fields"].clone()}));
+  out.push(json!({"ev": "dict", "entries": dict.to_json()}));
+  out.push(corpus);
+  let n = searches.len();
+  out.extend(searches);
+  n
+}
+
+/// C11: cursor walks, totals, stale cursors. Heavy score / sort-value ties across segments.
+fn family_paging(r: &mut StdRng, scn: usize, n_req: usize, out: &mut Vec<Value>) -> Result<usize> {
+  let mut knobs = Knobs::default();
+  knobs.n_docs = (6, 20);
+  knobs.nested = false;
+  let storage = "fs";
+  let b = build_index(r, &knobs, storage)?;
+  let mut reader = b.idx.reader()?;
+  let mut dict = Dict::new();
+  let corpus = corpus_event(&b, &reader, scn, &mut dict)?;
+  // few distinct words => many score ties; constant_score / match_all => all scores tie
+  let cfg = GenCfg { depth: 1, boosts: false, scoring_wrappers: false, filters_in_bool: true, expansions: false, nested_filters: false };
+  let n_slots = corpus["docs"].as_array().map(|a| a.len()).unwrap_or(0);
+  let mut searches = Vec::new();
+  let mut saved: Vec<(Value, String)> = Vec::new(); // (request without cursor, a cursor of it)
+  for _ in 0..n_req {
+    let depth = r.gen_range(0..=cfg.depth);
+    let q = if chance(r, 1, 4) { Q::All } else { gen_query(r, depth, &cfg) };
+    let filt = if chance(r, 1, 5) { Some(gen_filter(r, 1, false, "")) } else { None };
+    let sort = gen_sort(r);
+    let psize = r.gen_range(1..=7);
+    let exec = *pick(r, &["bm25", "wand", "bmw"]);
+    let mut full_req = base_request(&q, filt.as_ref(), n_slots + 5, exec);
+    full_req["sort"] = render_sort(&sort);
+    let full = run_search(&reader, &full_req);
+    let mut pages = Vec::new();
+    let mut cursor: Option<String> = None;
+    let mut guard = 0;
+    loop {
+      let mut req = base_request(&q, filt.as_ref(), psize, exec);
+      req["sort"] = render_sort(&sort);
+      if let Some(c) = &cursor {
+        req["cursor"] = json!(c);
+      }
+      let res = run_search(&reader, &req);
+      let next = res.as_ref().ok().and_then(|x| x.next_cursor.clone());
+      pages.push(obs_full(&res));
+      if let (Some(c), true) = (&next, saved.len() < 4) {
+        let mut base = base_request(&q, filt.as_ref(), psize, exec);
+        base["sort"] = render_sort(&sort);
+        saved.push((base, c.clone()));
+      }
+      guard += 1;
+      match next {
+        Some(c) if guard < 80 => cursor = Some(c),
+        _ => break,
+      }
+    }
+    let filters: Vec<Value> = filt.iter().map(|f| abstract_filter(f, &mut dict)).collect();
+    searches.push(json!({
+      "ev": "search", "check": "paging", "prop": "C11", "psize": psize, "exec": exec, "guard": guard >= 80,
+      "q": abstract_query(&b.schema, &q, &default_fields(), true, 1.0, &mut dict),
+      "filters": filters, "sort": abstract_sort(&sort), "full": obs_full(&full), "pages": pages,
+      "req": full_req.to_string(),
+    }));
+  }
+  // stale cursors: other sort plan, then after a commit that adds a segment, then after compaction
+  let mut stale = Vec::new();
+  for (req, cur) in saved.iter() {
+    let mut other = req.clone();
+    let cur_sort = req["sort"].to_string();
+    let alt = [json!([{"field": "year", "order": "desc"}]), json!([{"field": "year", "order": "asc"}]), json!([])];
+    let alt_sort = alt.iter().find(|a| a.to_string() != cur_sort).unwrap().clone();
+    other["sort"] = alt_sort;
+    other["cursor"] = json!(cur);
+    let res = run_search(&reader, &other);
+    stale.push(json!({"ev": "search", "check": "stale", "prop": "C11", "kind": "other_sort", "ok": res.is_ok(),
+                      "err": res.err().unwrap_or_default(), "req": other.to_string()}));
+  }
+  if !saved.is_empty() {
+    {
+      let mut w = b.idx.writer()?;
+      w.add_document(&doc_from_json(json!({"_id": "zz-new", "ver": 9999, "body": "rust rust go"})))?;
+      w.commit()?;
+    }
+    reader = b.idx.reader()?;
+    for (req, cur) in saved.iter() {
+      let mut again = req.clone();
+      again["cursor"] = json!(cur);
+      let res = run_search(&reader, &again);
+      stale.push(json!({"ev": "search", "check": "stale", "prop": "C11", "kind": "after_commit", "ok": res.is_ok(),
+                        "err": res.err().unwrap_or_default(), "req": again.to_string()}));
+    }
+    if b.idx.compact().is_ok() {
+      reader = b.idx.reader()?;
+      for (req, cur) in saved.iter() {
+        let mut again = req.clone();
+        again["cursor"] = json!(cur);
+        let res = run_search(&reader, &again);
+        stale.push(json!({"ev": "search", "check": "stale", "prop": "C11", "kind": "after_compact", "ok": res.is_ok(),
+                          "err": res.err().unwrap_or_default(), "req": again.to_string()}));
+      }
+    }
+  }
+  searches.extend(stale);
+  Ok(emit_scenario(out, scn, "paging", storage, &b, &dict, corpus, searches))
+}
+
+fn explain_finals(res: &std::result::Result<SearchResult, String>) -> Value {
+  match res {
+    Ok(r) => Value::Array(
+      r.hits
+        .iter()
+        .map(|h| match &h.explanation {
+          Some(x) => json!(sbits(x.final_score)),
+          None => json!(sbits(h.score)),
+        })
+        .collect(),
+    ),
+    Err(_) => json!([]),
+  }
+}
+
+/// C09 (pruned = exhaustive) and C20 (explain/profile change nothing): relational checks.
+fn family_relate(r: &mut StdRng, scn: usize, n_req: usize, out: &mut Vec<Value>) -> Result<usize> {
+  let mut knobs = Knobs::default();
+  let long = scn % 2 == 1;
+  if long {
+    knobs.long_postings = true;
+    knobs.nested = false;
+    knobs.n_docs = (300, 900);
+    knobs.max_commits = 3;
+  }
+  let storage = storage_kind(r);
+  let b = build_index(r, &knobs, storage)?;
+  let reader = b.idx.reader()?;
+  let mut dict = Dict::new();
+  let corpus = if long {
+    json!({"ev": "corpus", "scn": scn, "nseg": reader.segments.len(), "docs": []})
+  } else {
+    corpus_event(&b, &reader, scn, &mut dict)?
+  };
+  let cfg = GenCfg { depth: 2, boosts: true, scoring_wrappers: true, filters_in_bool: true, expansions: true, nested_filters: false };
+  let mut searches = Vec::new();
+  for i in 0..n_req {
+    let depth = r.gen_range(0..=cfg.depth);
+    let q = gen_query(r, depth, &cfg);
+    let filt = if chance(r, 1, 5) { Some(gen_filter(r, 1, false, "")) } else { None };
+    let sort = if chance(r, 3, 4) { vec![] } else { gen_sort(r) };
+    let limit = r.gen_range(1..=50);
+    let mut base = base_request(&q, filt.as_ref(), limit, "bm25");
+    base["sort"] = render_sort(&sort);
+    if i % 2 == 0 {
+      let mut variants = Vec::new();
+      let combos: Vec<(&str, Option<usize>)> = vec![
+        ("bm25", None), ("wand", None), ("bmw", None), ("bmw", Some(r.gen_range(1..=8))), ("bmw", Some(r.gen_range(9..=300))), ("wand", Some(1)),
+      ];
+      for (exec, bs) in combos {
+        let mut req = base.clone();
+        req["execution"] = json!(exec);
+        if let Some(bs) = bs {
+          req["bmw_block_size"] = json!(bs);
+        }
+        let res = run_search(&reader, &req);
+        variants.push(json!({"label": format!("{exec}/{bs:?}"), "obs": obs_full(&res)}));
+      }
+      searches.push(json!({"ev": "search", "check": "same", "prop": "C09", "proj": ["ok", "ids", "sbits"],
+                           "variants": variants, "req": base.to_string()}));
+    } else {
+      let exec = *pick(r, &["bm25", "wand", "bmw"]);
+      base["execution"] = json!(exec);
+      if chance(r, 1, 3) {
+        base["aggs"] = json!({"tags": {"type": "terms", "field": "tag", "size": 10, "shard_size": null, "min_doc_count": null, "missing": null}});
+      }
+      let mut variants = Vec::new();
+      for (ex, pr) in [(false, false), (true, false), (false, true), (true, true)] {
+        let mut req = base.clone();
+        req["explain"] = json!(ex);
+        req["profile"] = json!(pr);
+        let res = run_search(&reader, &req);
+        let mut o = obs_full(&res);
+        o["finals"] = explain_finals(&res);
+        variants.push(json!({"label": format!("explain={ex} profile={pr}"), "explain": ex, "obs": o}));
+      }
+      searches.push(json!({"ev": "search", "check": "same", "prop": "C20", "sort": abstract_sort(&sort), "exec": exec,
+                           "proj": ["ok", "ids", "sbits", "total", "cursor", "aggs"],
+                           "variants": variants, "req": base.to_string()}));
+    }
+  }
+  Ok(emit_scenario(out, scn, "relate", storage, &b, &dict, corpus, searches))
+}
+
 pub fn main(args: &Args) -> Result<()> {
   let seed = args.u64("seed", 1);
   let fam = args.str("family", "query");
@@ -241,6 +432,8 @@ pub fn main(args: &Args) -> Result<()> {
     let n = match fam.as_str() {
       "query" | "filter" => family_match(&mut r, scn, &fam, n_req, &mut evs)?,
       "rank" => family_rank(&mut r, scn, n_req, &mut evs)?,
+      "paging" => family_paging(&mut r, scn, n_req, &mut evs)?,
+      "relate" => family_relate(&mut r, scn, n_req, &mut evs)?,
       other => anyhow::bail!("unknown search family {other}"),
     };
     total += n;
